@@ -26,7 +26,7 @@ REPO = fw.REPO
 class Contract:
     def __init__(self, name, params, returns=None, requires=(), ensures=(), raises=None, modifies=(),
                  loops=None, globals=None, callees=None, opaque=None, locals=None, properties=(),
-                 defaults=None, ghost_end=(), eq_overrides=None, self_exact_class=None, module_of=None,
+                 defaults=None, ghost_end=(), eq_overrides=None, self_exact_class=None, module_of=None, class_views=None,
                  str_total=None, allow_unannotated_loops=False, check_termination=True, block=None,
                  replay=None, inline_ctors=(), note=None, trusted=False, canaries=None, macros=None,
                  ghost_pre=(), preds=None, ensures_internal=(), ghost_at=None,
@@ -48,6 +48,7 @@ class Contract:
         self.ghost_end = list(ghost_end)
         self.eq_overrides = dict(eq_overrides or {})
         self.self_exact_class = self_exact_class
+        self.class_views = class_views or {}
         self.module_of = dict(module_of or {})
         self.str_total = dict(str_total or {})
         self.allow_unannotated_loops = allow_unannotated_loops
